@@ -38,6 +38,8 @@ def gen_cases(tier, seed):
     n = 160 if tier == "quick" else 12000
     for i in range(n):
         kind = ["general", "henry", "langmuir-equal", "general", "point", "general"][i % 6]
+        if i % 4 == 3:
+            kind = "trace-edges"
         yield {"kind": "mixture", "flavour": kind, "seed": r.randrange(1 << 30), "ncomp": [2, 2, 3, 2, 4, 3][i % 6] if kind != "point" else 2 + (i % 2)}
     for i in range(12 if tier == "quick" else 400):
         yield {"kind": "helpers", "seed": r.randrange(1 << 30)}
@@ -88,7 +90,7 @@ ADS = ["nitrogen", "methane", "carbon dioxide", "argon"]
 def _model_iso(name, P, i):
     import pygaps
     m = GM.make_model(name, P, pressure_range=(0.0, 1000.0), loading_range=(0.0, 100.0), temperature=298.0)
-    return pygaps.ModelIsotherm(model=m, material="verif-c13", adsorbate=ADS[i % 4], temperature=298.0, **gen.DEFAULT_UNITS)
+    return pygaps.ModelIsotherm(model=m, material="verif-c13", adsorbate=ADS[i % 4], **dict(gen.DEFAULT_UNITS, **gen.temp_kw(298.0)))
 
 
 def _point_iso(name, P, i):
@@ -96,7 +98,7 @@ def _point_iso(name, P, i):
     m = GM.make_model(name, P, temperature=298.0)
     ps = numpy.exp(numpy.linspace(math.log(1e-4), math.log(1e4), 400))
     ls = numpy.asarray(m.loading(ps), dtype=float)
-    return pygaps.PointIsotherm(pressure=list(ps), loading=list(ls), branch="ads", material="verif-c13p", adsorbate=ADS[i % 4], temperature=298.0, **gen.DEFAULT_UNITS)
+    return pygaps.PointIsotherm(pressure=list(ps), loading=list(ls), branch="ads", material="verif-c13p", adsorbate=ADS[i % 4], **dict(gen.DEFAULT_UNITS, **gen.temp_kw(298.0)))
 
 
 def _build(case, r):
@@ -108,6 +110,14 @@ def _build(case, r):
     elif fl == "langmuir-equal":
         nm = round(gen.log_uniform(r, 0.5, 10), 6)
         comps = [("Langmuir", {"K": round(gen.log_uniform(r, 0.05, 50), 6), "n_m": nm}) for _ in range(n)]
+    elif fl == "trace-edges":
+        # a strongly adsorbed component between two that end up as traces (x ~ 1e-6 ... 1e-9): hard for the solver
+        n = 3
+        comps = [("Langmuir", {"K": round(gen.log_uniform(r, 0.2, 3), 4), "n_m": round(r.uniform(0.2, 0.5), 4)}),
+                 ("Langmuir", {"K": round(gen.log_uniform(r, 100, 600), 3), "n_m": round(r.uniform(3, 6), 4)}),
+                 ("Langmuir", {"K": round(gen.log_uniform(r, 0.1, 0.6), 4), "n_m": round(r.uniform(0.2, 0.5), 4)})]
+        isos = [_model_iso(nme, P, i) for i, (nme, P) in enumerate(comps)]
+        return comps, isos, [round(gen.log_uniform(r, 0.01, 0.1), 5), round(r.uniform(8, 20), 4), round(r.uniform(8, 20), 4)]
     elif fl == "point":
         comps = [(nme, _params(nme, r)) for nme in [r.choice(["Langmuir", "DSLangmuir", "Toth"]) for _ in range(n)]]
     else:
@@ -213,6 +223,17 @@ def _run_mixture(case, ctx):
             ctx.violation("iast_point/guess-dependent", "a starting guess at the solution gives a different result", got=rg[1], expected=n)
     else:
         ctx.count("refusals", "with-guess/" + type(rg[1]).__name__)
+    # ... and a guess typed to four decimals (its sum may be 0.9999 or 1.0001: accepted by the library)
+    rough = [round(float(g), 4) for g in guess]
+    if min(rough) > 0:
+        rq_ = _call(pgiast.iast_point, isos, list(pp), warningoff=True, adsorbed_mole_fraction_guess=rough)
+        ctx.case(["iast_point-rough-guess", dg])
+        ctx.count("rough_guess", "sum=%.4f" % sum(rough) if abs(sum(rough) - 1) > 1e-12 else "sum=1")
+        if rq_[0] == "ok":
+            if _verify_result(ctx, "iast_point[rough-guess]", isos, pp, numpy.asarray(rq_[1], dtype=float), dict(info, guess=rough)) and not numpy.allclose(rq_[1], n, rtol=1e-5):
+                ctx.violation("iast_point/guess-dependent", "a starting guess typed to four decimals gives a different result", got=rq_[1], expected=n, guess=rough)
+        else:
+            ctx.count("refusals", "with-rough-guess/" + type(rq_[1]).__name__)
     # permutation invariance
     k = len(isos)
     perms = list(itertools.permutations(range(k)))[1:]
